@@ -232,7 +232,8 @@ func evaluate(col *vc.Collector, c *Config, res result) {
 		col.Class("C03", "timely:expected:"+want+":"+c.Desc()[7:strings.LastIndex(c.Desc(), "/ids")])
 		// was the approval given while a hello message of the client was still outstanding (its first
 		// hello not yet delivered, or its answer to a prolongation request in flight)? Then that hello
-		// reaches the server after it jumped into the protocol phase.
+		// reaches the server after the approval: in ready-listen (8) since the repair 5d569c4, in the
+		// protocol phase (13/18/20) before it, where it was rejected.
 		approvedBeforeHello := false
 		if c.User == "approve" && res.UserState == 11 {
 			approved := false
@@ -240,7 +241,7 @@ func evaluate(col *vc.Collector, c *Config, res result) {
 				if e.Who == "S" && e.Kind == "approve" {
 					approved = true
 				}
-				if approved && e.Who == "S" && e.Kind == "in" && e.B && strings.HasPrefix(e.S, "hello|") && (e.N == 13 || e.N == 18 || e.N == 20) {
+				if approved && e.Who == "S" && e.Kind == "in" && e.B && strings.HasPrefix(e.S, "hello|") && (e.N == 8 || e.N == 13 || e.N == 18 || e.N == 20) {
 					approvedBeforeHello = true
 					break
 				}
